@@ -890,23 +890,24 @@ impl<'a, F: FeatureProvider, V: VariationInfo> CompilationCtx<'a, F, V> {
                     }
                     if targets.iter().next().is_some() {
                         let lookup = self.ensure_current_lookup_type(Kind::GsubType6, node.range());
-                        let mut lookup_id = None;
-                        for (i, target) in targets.iter().enumerate() {
-                            let replacement = replacements
-                                .iter()
-                                .filter_map(|r| match r {
-                                    GlyphOrClass::Glyph(gid) => Some(*gid),
-                                    GlyphOrClass::Class(cls) => cls.items().get(i).copied(),
-                                    GlyphOrClass::Null => None,
-                                })
-                                .collect();
-                            lookup_id = Some(
-                                lookup
-                                    .as_gsub_contextual()
-                                    .add_anon_gsub_type_2(target, replacement),
-                            );
-                        }
-                        lookup_id
+                        // all the glyphs of the target go in one anonymous
+                        // lookup, which is the one this rule refers to
+                        let rules = targets
+                            .iter()
+                            .enumerate()
+                            .map(|(i, target)| {
+                                let replacement = replacements
+                                    .iter()
+                                    .filter_map(|r| match r {
+                                        GlyphOrClass::Glyph(gid) => Some(*gid),
+                                        GlyphOrClass::Class(cls) => cls.items().get(i).copied(),
+                                        GlyphOrClass::Null => None,
+                                    })
+                                    .collect();
+                                (target, replacement)
+                            })
+                            .collect();
+                        Some(lookup.as_gsub_contextual().add_anon_gsub_type_2(rules))
                     } else {
                         None
                     }
